@@ -354,3 +354,127 @@ Proof.
   intros Hn H. pose proof (col0_clear_gauss n Hn (2 * n + 1) 0 0 u H) as C. fold (gauss n u) in C.
   destruct (gauss n u) as [|r0 l]; [reflexivity|]. apply C. left. reflexivity.
 Qed.
+
+(* ---------- "rows 1.." = the part of the group that commutes with Z on the measured qubit -------------------- *)
+Definition z0 (n : nat) : list pauli := PZ :: repeat PI (n - 1).
+
+Lemma anti_l_repeat_PI_r a : forall k, anti_l a (repeat PI k) = false.
+Proof. induction a as [|x a IH]; intros [|k]; simpl; auto. rewrite IH. destruct x; reflexivity. Qed.
+Lemma anti_l_repeat_PI_l b : forall k, anti_l (repeat PI k) b = false.
+Proof. intro k. rewrite anti_l_sym. apply anti_l_repeat_PI_r. Qed.
+
+Lemma z0_length n : 1 <= n -> length (z0 n) = n.
+Proof. intro H. unfold z0. simpl. rewrite repeat_length. lia. Qed.
+
+Lemma anti_row_z0 n r : 1 <= n -> anti_l (snd (decode_ph n r)) (z0 n) = get r 0.
+Proof.
+  intro Hn. unfold decode_ph, lift, decode, z0. cbn [snd]. rewrite seq_0_S by auto. cbn [map anti_l].
+  rewrite anti_l_repeat_PI_r. unfold pauli_at, anticomm1. rewrite xbit_pauli_of, zbit_pauli_of. rewrite Nat.add_0_l.
+  destruct (get r 0), (get r n); reflexivity.
+Qed.
+
+Lemma pmul_length n x y : length (snd x) = n -> length (snd y) = n -> length (snd (pmul x y)) = n.
+Proof. intros Hx Hy. unfold pmul; cbn [snd]. rewrite pmul_l_length; congruence. Qed.
+
+Lemma gen_commute_row n t r : commuting n t -> In r t ->
+  forall a, gen n t a -> anti_l (snd a) (snd (decode_ph n r)) = false.
+Proof.
+  intros Hc Hr a G. induction G.
+  - apply anti_l_repeat_PI_l.
+  - unfold decode_ph, lift; cbn [snd]. rewrite <- symp_decode. apply Hc; auto.
+  - unfold pmul; cbn [snd]. rewrite anti_l_pmul_l.
+    + rewrite IHG1, IHG2. reflexivity.
+    + rewrite (gen_length _ _ _ G1), (gen_length _ _ _ G2). reflexivity.
+    + rewrite (gen_length _ _ _ G2), decode_ph_length. reflexivity.
+Qed.
+
+Lemma gen_commute n t : commuting n t -> forall a b, gen n t a -> gen n t b -> anti_l (snd a) (snd b) = false.
+Proof.
+  intros Hc a b Ga Gb. induction Gb.
+  - apply anti_l_repeat_PI_r.
+  - apply (gen_commute_row n t); auto.
+  - rewrite anti_l_sym. unfold pmul; cbn [snd]. rewrite anti_l_pmul_l.
+    + rewrite (anti_l_sym (snd a0)), (anti_l_sym (snd b)), IHGb1, IHGb2. reflexivity.
+    + rewrite (gen_length _ _ _ Gb1), (gen_length _ _ _ Gb2). reflexivity.
+    + rewrite (gen_length _ _ _ Gb2), (gen_length _ _ _ Ga). reflexivity.
+Qed.
+
+Section CommutingPart.
+  Variable n : nat.
+  Variable r0 : row.
+  Variable R : tab.
+  Hypothesis Hn : 1 <= n.
+  Hypothesis Hc : commuting n (r0 :: R).
+  Hypothesis H0 : get r0 0 = true.
+  Hypothesis HR : forall r, In r R -> get r 0 = false.
+
+  Let D := decode_ph n r0.
+
+  Lemma split_claim : forall g, gen n (r0 :: R) g ->
+    if anti_l (snd g) (z0 n) then gen n R (pmul g D) else gen n R g.
+  Proof.
+    assert (LD : length (snd D) = n) by apply decode_ph_length.
+    assert (RD : ph_odd (fst D) = false) by apply decode_ph_real.
+    assert (GD : gen n (r0 :: R) D) by (apply gen_row; left; auto).
+    intros g G. induction G.
+    - unfold pone; cbn [snd]. rewrite anti_l_repeat_PI_l. apply gen_one.
+    - rewrite anti_row_z0 by auto. destruct H as [<-|Hr].
+      + rewrite H0. fold D. rewrite pmul_self by auto. rewrite LD. apply gen_one.
+      + rewrite (HR r Hr). apply gen_row; auto.
+    - assert (La : length (snd a) = n) by (eapply gen_length; eauto).
+      assert (Lb : length (snd b) = n) by (eapply gen_length; eauto).
+      assert (Cb : pmul b D = pmul D b).
+      { apply pmul_comm. apply (gen_commute n (r0 :: R)); auto. }
+      unfold pmul at 1; cbn [snd]. rewrite anti_l_pmul_l by (rewrite ?z0_length; congruence).
+      destruct (anti_l (snd a) (z0 n)), (anti_l (snd b) (z0 n)); cbn [xorb].
+      + (* (a D)(b D) = a b *)
+        assert (E : pmul (pmul a D) (pmul b D) = pmul a b).
+        { rewrite pmul_assoc by (rewrite ?(pmul_length n); congruence).
+          rewrite <- (pmul_assoc D b D) by congruence. rewrite <- Cb.
+          rewrite (pmul_mul_cancel n) by auto. reflexivity. }
+        rewrite <- E. apply gen_mul; auto.
+      + (* (a D) b = (a b) D *)
+        assert (E : pmul (pmul a D) b = pmul (pmul a b) D).
+        { rewrite pmul_assoc by congruence. rewrite <- Cb. rewrite <- pmul_assoc by congruence. reflexivity. }
+        rewrite <- E. apply gen_mul; auto.
+      + rewrite pmul_assoc by congruence. apply gen_mul; auto.
+      + apply gen_mul; auto.
+  Qed.
+
+  (* the elements generated by the rows without X/Y on the measured qubit are exactly the elements of the whole group
+     that commute with Z on the measured qubit *)
+  Theorem commuting_part : forall g, gen n R g <-> (gen n (r0 :: R) g /\ anti_l (snd g) (z0 n) = false).
+  Proof.
+    intro g; split.
+    - intro G. split.
+      + revert g G. apply gen_incl. intros r Hr. apply gen_row. right; auto.
+      + induction G.
+        * apply anti_l_repeat_PI_l.
+        * rewrite anti_row_z0 by auto. apply HR; auto.
+        * unfold pmul; cbn [snd]. rewrite anti_l_pmul_l.
+          -- rewrite IHG1, IHG2. reflexivity.
+          -- rewrite (gen_length _ _ _ G1), (gen_length _ _ _ G2). reflexivity.
+          -- rewrite (gen_length _ _ _ G2), z0_length; auto.
+    - intros [G A]. pose proof (split_claim g G) as S. rewrite A in S. exact S.
+  Qed.
+End CommutingPart.
+
+(* random branch: the generators kept (rows 1.. of the eliminated tableau) generate exactly the elements of the
+   pre-measurement group that commute with Z on the measured qubit (frame with the measured qubit first) *)
+Theorem meas_random_kept_part n p t : 1 <= n ->
+  commuting n (framed n p t) -> random_branch n p t = true ->
+  forall h, gen n (skipn 1 (eliminated n p t)) h <->
+            (gen n (framed n p t) h /\ anti_l (snd h) (z0 n) = false).
+Proof.
+  intros Hn Hc Hr h.
+  pose proof (random_branch_col0 n Hn (framed n p t) Hr) as Hrest.
+  pose proof (gauss_commuting n _ Hc) as Ct. pose proof (gauss_group n _ Hc) as Gt.
+  unfold random_branch in Hr. fold (framed n p t) in Hr. fold (eliminated n p t) in *.
+  unfold eliminated in *. fold (framed n p t) in *.
+  destruct (gauss n (framed n p t)) as [|r0 R] eqn:E; [unfold get in Hr; simpl in Hr; discriminate|].
+  cbn [skipn]. simpl in Hr.
+  assert (HR : forall r, In r R -> get r 0 = false).
+  { intros r Hin. apply (@In_nth row _ _ []) in Hin. destruct Hin as (j & Hj & <-).
+    apply (Hrest (S j)). simpl. lia. }
+  rewrite (commuting_part n r0 R Hn Ct Hr HR h). split; intros [G A]; split; auto; apply Gt; auto.
+Qed.
